@@ -9,8 +9,8 @@ from vf.ref import introspect as I
 from tartiflette import Resolver, Directive, Scalar, TypeResolver
 
 META = {
-    "bounds": "7 SDL models (minimal; every kind once; wrappers to depth 3; defaults of every literal kind; `extend` of every kind + custom root names; custom directives / "
-              "@deprecated / @nonIntrospectable; schema-level @nonIntrospectable) x 4 ways of supplying the SDL (string, file, list of files, directory); "
+    "bounds": "8 SDL models in up to 3 declaration orders (minimal; every kind once; wrappers to depth 3; defaults of every literal kind; `extend` of every kind + custom root names; custom directives / "
+              "@deprecated / @nonIntrospectable; schema-level @nonIntrospectable; implementers declared before/after their interface) x 4 ways of supplying the SDL (string, file, list of files, directory); "
               "`__type(name:)` argument symbolic (all strings); includeDeprecated absent/null/true/false",
     "outside": "SDL outside the 7 models (the lark grammar/transformers only ever see these concrete renderings: a finite catalogue); declared names themselves are concrete "
                "(bake inserts them into dicts, which realises a symbolic name)",
@@ -68,8 +68,29 @@ M6 = [
     'enum Color { RED @deprecated(reason: "no red") GREEN @deprecated BLUE }',
     'type Query { old: Int @deprecated(reason: "use new") older: Int @deprecated new: Int hidden: Int @nonIntrospectable col: Color t(a: Int @tag): Int @tag(n: 1) }',
 ]
+M7 = [
+    "type Blob implements Shape { area: Float }",
+    "type Circle { area: Float r: Int }",
+    "type Query { s: Shape any: Any }",
+    "extend type Circle implements Shape",
+    "interface Shape { area: Float }",
+    "type Square implements Shape & Sided { area: Float side: Int }",
+    "union Any = Blob | Square",
+    "interface Sided { side: Int }",
+    "extend union Any = Circle",
+]
 M6S = ["schema @nonIntrospectable { query: Query }", "type Query { a: Int b: Int @deprecated }"]
-MODELS = {"M1": M1, "M2": M2, "M3": M3, "M4": M4, "M5": M5, "M6": M6, "M6S": M6S}
+def _orders(chunks):
+    """declaration order must not matter: original, reversed, rotated (extensions kept after everything else when reversed)"""
+    base = [c for c in chunks if not c.startswith("extend")]; ext = [c for c in chunks if c.startswith("extend")]
+    half = len(base) // 2
+    return [chunks, base[::-1] + ext[::-1], base[half:] + base[:half] + ext]
+
+
+MODELS = {"M1": M1, "M2": M2, "M3": M3, "M4": M4, "M5": M5, "M6": M6, "M7": M7, "M6S": M6S}
+for _n in ("M2", "M5", "M7"):
+    _o = _orders(MODELS[_n])
+    MODELS[_n + "r"] = _o[1]; MODELS[_n + "h"] = _o[2]
 MODES = ["str", "file", "files", "dir"]
 TMP = os.path.join(VERIF, ".build", "tmp", "c11_%d" % os.getpid())
 
@@ -178,8 +199,8 @@ def c11_schema(dep: int) -> bool:
     return verdict(not d)
 
 
-@obligation(tier="quick", timeout=120, shards=[{"m": m, "mode": mode} for m in ("M2", "M5", "M6") for mode in MODES],
-            quick_shards=[0, 5, 10, 3],
+@obligation(tier="quick", timeout=120, shards=[{"m": m, "mode": mode} for m in ("M2", "M5", "M6", "M7") for mode in MODES],
+            quick_shards=[0, 5, 10, 3, 12],
             samples=[{"n": "A"}, {"n": "Nope"}, {"n": ""}],
             symbolic=["n: str — the argument of __type(name:) (all strings)"], selectors=["shard: model, supply mode"],
             bounds="every string n",
